@@ -30,7 +30,7 @@ ASSUMPTIONS = [
     "text mode uses ASCII without carriage returns (TextIOWrapper translates them)",
     "client dictionary entries are numeric, BOOLEAN, string/DOMAIN or absent (types without codec are out of domain)",
 ]
-BUDGET = {"quick": 50, "thorough": 400}
+BUDGET = {"quick": 150, "thorough": 400}
 
 NODE = 2
 FIXED = [rc.BOOLEAN] + sorted(rc.NUMERIC)
@@ -110,6 +110,8 @@ def do_download(rig, x, D, tag):
                     _raw_write_all(fp, data, x["chunks"])
                 else:
                     _buffered_write(fp, data, x["chunks"])
+                if x.get("close_twice"):
+                    fp.close()          # an explicit close() inside the with block: the second close is a no-op
         else:
             fp = c.open(index, sub, "wb", buffering=buffering, size=size,
                         force_segment=x.get("force", False))
@@ -118,6 +120,8 @@ def do_download(rig, x, D, tag):
                     _raw_write_all(fp, data, x["chunks"])
                 else:
                     _buffered_write(fp, data, x["chunks"])
+                if x.get("close_twice"):
+                    fp.close()
     new = rig.server.commits[n_commits:]
     if len(new) != 1:
         D.append(Discrepancy(f"C01/download/{route}/commit-count",
@@ -163,7 +167,7 @@ def do_upload(rig, x, D, tag, decl):
                 if x.get("lines"):
                     got = "".join(list(fp))
                 else:
-                    got = _read_loop(fp, x.get("reads"), "")
+                    got = _read_loop(fp, x.get("reads"), "", D, tag)
         else:
             if x.get("var_open"):
                 var = c[index] if x.get("toplevel") else c[index][sub]
@@ -179,7 +183,7 @@ def do_upload(rig, x, D, tag, decl):
                         D.append(Discrepancy("C01/upload/size-attr",
                                              f"{tag}: stream.size = {announced}, server style {served} "
                                              f"announced {exp_size}"))
-                got = _read_loop(fp, x.get("reads"), b"")
+                got = _read_loop(fp, x.get("reads"), b"", D, tag)
     if isinstance(got, (bytes, bytearray)):
         got = bytes(got)
     if got != want:
@@ -194,7 +198,7 @@ def _show(v):
     return f"{v[:40]!r}({len(v)} chars)"
 
 
-def _read_loop(fp, reads, empty):
+def _read_loop(fp, reads, empty, D, tag):
     if not reads:
         return fp.read()
     out = empty
@@ -202,7 +206,24 @@ def _read_loop(fp, reads, empty):
     while True:
         k = reads[i % len(reads)]
         i += 1
-        chunk = fp.read() if k is None else fp.read(k)      # None = "the rest"
+        if k is not None and k < 0 and isinstance(empty, str):
+            chunk = fp.read(-k)                                 # text streams have no readinto()
+        elif k is not None and k < 0:
+            # readinto() with a buffer of -k bytes (on a raw stream the caller's buffer may be
+            # smaller than one segment)
+            buf = bytearray(-k)
+            n = fp.readinto(buf)
+            chunk = bytes(buf[:n or 0])
+        else:
+            chunk = fp.read() if k is None else fp.read(k)      # None = "the rest"
+            if k is None:
+                # io contract: read() without a size returns everything up to the end of the data
+                more = fp.read()
+                if more:
+                    D.append(Discrepancy("C01/upload/read-all-stops-early",
+                                         f"{tag}: after reads {reads[:i]} read() returned {_show(chunk)} although "
+                                         f"{_show(more)} was still to come"))
+                return out + chunk + more
         if not chunk:
             return out
         out += chunk
@@ -344,7 +365,7 @@ def enum_cases():
                     yield {"od": od, "xfers": [{"op": "dl", "index": 0xFFFF - n, "sub": 255 - n,
                                                 "data": data, "route": "open", "size_decl": size_decl,
                                                 "buffering": buffering, "force": (i % 5 == 0),
-                                                "chunks": ch}]}
+                                                "chunks": ch, "close_twice": (i % 3 == 0)}]}
         yield {"od": od, "xfers": [{"op": "dl", "index": 0x2000, "sub": 0, "data": data, "route": "open",
                                     "var_open": True, "toplevel": True, "size_decl": True,
                                     "buffering": 1024, "chunks": [n] if n else []}]}
@@ -363,7 +384,8 @@ def enum_cases():
                                         "style": style, "route": "var_data", "toplevel": True}]}
             j = 0
             for buffering in BUFFERINGS:
-                reads = [None, [1], [3], [7], [8], [64], [2, 5, 11], [1, None], [4, 2, None]][(j + n) % 9]
+                reads = [None, [1], [3], [7], [8], [64], [2, 5, 11], [1, None], [4, 2, None], [-3, None], [-1, 2, -5],
+                         [-2, -9, None]][(j + n) % 12]
                 j += 1
                 yield {"od": od, "xfers": [{"op": "ul", "index": 0x2000, "sub": 0, "data": data,
                                             "style": style, "route": "open", "buffering": buffering,
@@ -463,6 +485,7 @@ def history(draw, max_len):
                     x["buffering"] = draw(st.sampled_from([1, 2, 5, 7, 16, 1024]))
                 else:
                     x["buffering"] = draw(st.sampled_from(BUFFERINGS))
+                    x["close_twice"] = draw(st.integers(0, 3)) == 0
                     if in_od and draw(st.booleans()):
                         x["var_open"] = True
                         x["toplevel"] = top
@@ -486,7 +509,9 @@ def history(draw, max_len):
                         x["var_open"] = True
                         x["toplevel"] = top
                 x["reads"] = draw(st.one_of(st.none(), st.lists(st.integers(1, 70), min_size=1, max_size=4),
-                                            st.lists(st.integers(1, 9), min_size=1, max_size=3).map(lambda l: l + [None])))
+                                            st.lists(st.integers(1, 9), min_size=1, max_size=3).map(lambda l: l + [None]),
+                                            st.lists(st.one_of(st.integers(-9, -1), st.integers(1, 9), st.none()),
+                                                     min_size=1, max_size=4)))
         xfers.append(x)
     return {"od": od, "xfers": xfers}
 
